@@ -796,7 +796,9 @@ def set_at(p, path, v):
 def near_miss(key, rng):
     if not key:
         return "x"
-    ops = [key.upper(), key.lower(), key + "s", key[:-1], key[0] + key, key.replace("_", ""), key.capitalize(), key[1:] + key[:1]]
+    ops = [key.upper(), key.lower(), key + "s", key[:-1], key[0] + key, key.replace("_", ""), key.capitalize(), key[1:] + key[:1],
+           # padding that fixed-width or C-string-like comparisons ignore: NULs, blanks, a repeated last character
+           key + "\u0000", key + "\u0000\u0000\u0000", "\u0000" + key, key + " ", " " + key, key + key[-1:], key + "\u200b"]
     # multi-byte typos: one edit each in characters, several bytes each (the typo budget counts bytes of the received string,
     # the distance counts characters)
     if len(key) >= 3:
